@@ -17,7 +17,7 @@ for pid in sorted(props):
         "level_claimed": {
             "category": "proof",
             "text": p["level_text"],
-            "design_ref": p.get("design_ref", "DESIGN.md §4 " + pid),
+            "design_ref": p.get("design_ref", "DESIGN.md §4 " + pid + " (plan), §9.6 (as built), §10 (seeded changes)"),
         },
         "level_note": p["level_note"],
         "technique": p.get("technique", "contract-based deductive verification: Verus (SMT) on function bodies mechanically extracted from /repo on every run, against hand-written pre/postconditions, invariants and lemmas; Kani function-level harnesses in place as counterexample producer"),
